@@ -177,12 +177,13 @@ FileToks(file, f, ch) ==
 \* separator classes and their width in characters; "nl" starts a new row
 \*   sp ' '   tab '\t'   cr '\r'   bc '/*c<e-acute>*/' (6 chars)   lc '//c' (then a line break must follow)   lc4 '////x'
 \*   bc2 '/* x **/' (8 chars)   bc3 '/***/' (5 chars)   bc4 '/*/ x */' (8 chars: the '/' right after the opening is no end)
+\*   bc5 '/* a/b *c/ */' (13 chars: a '/' ends the comment only right after a '*')
 \*   ppskip: a line break, a conditional block that is not selected ('#if NOPE' / a definition / '#endif') and a line break
 \*   ppdef : a line break, '#define ZED' and a line break             (the slice lexer continues in a new source block)
-ClassCols == [sp |-> 1, tab |-> 1, cr |-> 1, bc |-> 6, lc |-> 3, lc4 |-> 5, ws3 |-> 1, bc2 |-> 8, bc3 |-> 5, bc4 |-> 8]
+ClassCols == [sp |-> 1, tab |-> 1, cr |-> 1, bc |-> 6, lc |-> 3, lc4 |-> 5, ws3 |-> 1, bc2 |-> 8, bc3 |-> 5, bc4 |-> 8, bc5 |-> 13]
 Seps == << <<"sp">>, <<"nl">>, <<"tab">>, <<"cr", "nl">>, <<"sp", "bc", "sp">>, <<"sp", "lc", "nl">>, <<"nl", "sp", "sp">>,
            <<"lc4", "nl", "tab">>, <<"sp">>, <<"nl", "nl", "sp", "sp", "sp", "sp">>, <<"ws3">>, <<"bc">>,
-           <<"ppskip", "sp", "sp", "sp">>, <<"bc2">>, <<"sp", "ppdef", "tab">>, <<"bc3", "sp">>, <<"bc4">> >>
+           <<"ppskip", "sp", "sp", "sp">>, <<"bc2">>, <<"sp", "ppdef", "tab">>, <<"bc3", "sp">>, <<"bc4">>, <<"bc5">> >>
 Adv(cur, cls) == CASE cls = "nl" -> [row |-> cur.row + 1, col |-> 1]
                    [] cls = "ppskip" -> [row |-> cur.row + 4, col |-> 1]
                    [] cls = "ppdef" -> [row |-> cur.row + 2, col |-> 1]
